@@ -36,6 +36,7 @@ class _Pgrep(object):
         return self._out, b''
 
 
+DISCOVERY_COMMANDS = ('pgrep', 'ps', 'pstree', 'pidof', 'pkill')
 HARNESS_PGID = FAKE_BASE - 7      # the process group / session of "rebench" in the fake process table
 
 
@@ -44,22 +45,77 @@ class ProcTable(object):
     'setsid': True (it leads a new session and process group) or 'setpgid': True (a new process group);
     descendants inherit group and session of their parent."""
 
-    def __init__(self):
-        self.procs = {}        # pid -> {'ppid', 'pgid', 'sid'}
-        self.order = {}        # pid -> [child pids] in the order they were started
+    # "rebench" itself in the fake table: root, no controlling terminal
+    INVOKER = {'uid': 0, 'tty': '?'}
 
-    def add_tree(self, tree, ppid=1, pgid=HARNESS_PGID, sid=HARNESS_PGID, root_leads_session=False):
+    def __init__(self):
+        self.procs = {}        # pid -> {'ppid', 'pgid', 'sid', 'uid', 'tty'}
+        self.order = {}        # pid -> [child pids] in the order they were started
+        self.unknown = []      # discovery commands the table cannot answer (observed, answered with nothing)
+
+    def add_tree(self, tree, ppid=1, pgid=HARNESS_PGID, sid=HARNESS_PGID, root_leads_session=False, uid=0, tty='?'):
+        """a node may also carry 'tty': 'pts/N' (it runs on a pseudo terminal of its own, as under script / ssh -t;
+        that implies a session of its own) or 'uid': N (it changed its user id); both are inherited"""
         pid = tree['pid']
+        if tree.get('tty'):
+            tty = tree['tty']
+            pgid = sid = pid
+        if tree.get('uid') is not None:
+            uid = tree['uid']
         if root_leads_session or tree.get('setsid'):
             pgid = sid = pid
         elif tree.get('setpgid'):
             pgid = pid
-        self.procs[pid] = {'ppid': ppid, 'pgid': pgid, 'sid': sid}
+        self.procs[pid] = {'ppid': ppid, 'pgid': pgid, 'sid': sid, 'uid': uid, 'tty': tty}
         self.order.setdefault(ppid, []).append(pid)
         self.order.setdefault(pid, [])
         for c in tree['children']:
-            self.add_tree(c, pid, pgid, sid)
+            self.add_tree(c, pid, pgid, sid, uid=uid, tty=tty)
         return self
+
+    def answer(self, command):
+        """the output of a process-discovery command (pgrep, ps); a command the table does not know is recorded
+        and answered with nothing: what the implementation then kills is what gets judged"""
+        words = command.split()
+        try:
+            if words and words[0] == 'pgrep':
+                return self.pgrep(command)
+            if words and words[0] == 'ps':
+                return self.ps(words[1:])
+        except (lib.InfraError, ValueError, IndexError):
+            pass
+        self.unknown.append(command)
+        return b''
+
+    def ps(self, words):
+        """procps `ps`: without -e / -A / ax only the processes with the invoker's effective user id AND the
+        invoker's controlling terminal are selected; -o picks the columns (pid, ppid, pgid, sid, uid, tty)"""
+        everything = False
+        cols = ['pid', 'tty']
+        i = 0
+        while i < len(words):
+            w = words[i]
+            if w in ('-e', '-A', 'ax', 'aux', '-ax', 'axo', '-eo', '-Ao'):
+                everything = True
+                if w in ('axo', '-eo', '-Ao') and i + 1 < len(words):
+                    cols = [c.rstrip('=') for c in words[i + 1].split(',')]
+                    i += 1
+            elif w in ('-o', 'o', '--format') and i + 1 < len(words):
+                cols = [c.rstrip('=') for c in words[i + 1].split(',')]
+                i += 1
+            elif w.startswith('-o') and len(w) > 2:
+                cols = [c.rstrip('=') for c in w[2:].split(',')]
+            else:
+                raise lib.InfraError('ps option not supported by the fake process table: %r' % w)
+            i += 1
+        key = {'pgrp': 'pgid', 'sess': 'sid', 'session': 'sid', 'euid': 'uid', 'tt': 'tty', 'tname': 'tty'}
+        out = []
+        for p in sorted(self.procs):
+            r = self.procs[p]
+            if everything or (r['uid'] == self.INVOKER['uid'] and r['tty'] == self.INVOKER['tty']):
+                row = dict(r, pid=p)
+                out.append(' '.join(str(row[key.get(c, c)]) for c in cols))
+        return ('\n'.join(out) + ('\n' if out else '')).encode('ascii')
 
     def pgrep(self, command):
         """`pgrep [-P ppid,…] [-g pgrp,…] [-s sid,…]`: the pids that match all given criteria"""
@@ -100,16 +156,17 @@ class KillWorld(object):
         self.pgreps = []
 
     def popen(self, args, shell=False, stdout=None, stderr=None, **kw):
-        if not (isinstance(args, str) and args.startswith('pgrep ')):
-            raise lib.InfraError('unexpected process start in scripted kill world: %r' % (args,))
+        if not isinstance(args, str):
+            args = ' '.join(str(a) for a in args)
+        # whatever is started here is a process-discovery command (the world starts nothing else)
         self.pgreps.append(args)
         if self.table is None:
             self.table = ProcTable()
             for ppid, kids in self.children.items():
                 for k in kids:
-                    self.table.procs[k] = {'ppid': ppid, 'pgid': HARNESS_PGID, 'sid': HARNESS_PGID}
+                    self.table.procs[k] = {'ppid': ppid, 'pgid': HARNESS_PGID, 'sid': HARNESS_PGID, 'uid': 0, 'tty': '?'}
                 self.table.order[ppid] = list(kids)
-        return _Pgrep(self.table.pgrep(args))
+        return _Pgrep(self.table.answer(args))
 
     def kill(self, pid, sig=signal.SIGKILL):
         if pid < drive.FAKE_PID_BASE:
@@ -402,8 +459,8 @@ class TreeLayer(drive.ProcessLayer):
         self.in_join = threading.Event()   # set by the harness when the main thread has entered the join
 
     def popen(self, args, shell=False, cwd=None, stdin=None, stdout=None, stderr=None, env=None, **kw):
-        if isinstance(args, str) and args.startswith('pgrep '):
-            return _Pgrep(self.ptable.pgrep(args))
+        if isinstance(args, str) and args.split()[:1] and args.split()[0] in DISCOVERY_COMMANDS:
+            return _Pgrep(self.ptable.answer(args))
         proc = super(TreeLayer, self).popen(args, shell=shell, cwd=cwd, stdin=stdin, stdout=stdout, stderr=stderr,
                                             env=env, **kw)
         # does the child lead a session / process group of its own?
@@ -471,6 +528,14 @@ threading.Thread(target=helper).start()
 # ... and a helper that leads a session (and process group) of its own, with a child below it
 p2 = subprocess.Popen(['/bin/sh', '-c', 'echo "node $$ own-session" >> "$0"; /bin/sleep 40 & echo "node $! own-session-child" >> "$0"; wait',
                        log], stdout=subprocess.DEVNULL, stderr=subprocess.DEVNULL, start_new_session=True)
+# ... and a worker on a pseudo terminal of its own (as under script / ssh -t) that survives the hang-up
+import pty, signal
+wpid, _fd = pty.fork()
+if wpid == 0:
+    signal.signal(signal.SIGHUP, signal.SIG_IGN)
+    with open(log, 'a') as f:
+        f.write('node %d own-pty\\n' % os.getpid())
+    os.execv('/bin/sleep', ['/bin/sleep', '40'])
 time.sleep(40)
 '''
 
